@@ -94,6 +94,41 @@ CHECKS["C08"] = dict(
     technique="TLA+-enumerated input lattice + round trip through the real compressors",
     design_ref="DESIGN.md §4 C08")
 
+_WIRE_NOTE = ("Trusted: the TLA+ transcription of specs/*.spec in WirePrim/WireMsg/WireShapes.tla; the builder/projection in harness/wire.go "
+              "(self-checked on every vector: project(build(x)) = x). Value contents beyond the enumerated classes are covered by the random legs only.")
+CHECKS["C01"] = dict(
+    level="exploration",
+    text="WireShapes.tla enumerates the abstract frames (every message kind and variant, every subset of optional fields, value classes, "
+         "every enum constant, legal header-flag combinations, stream-id classes) for all six versions; each is built as a real frame, "
+         "encoded and decoded with no compression, LZ4 and Snappy, and the projection of the decoded frame must equal the abstract frame "
+         "(equality up to what the wire cannot carry is built into the abstract form). Pure functions: structured enumeration, not state exploration.",
+    note=_WIRE_NOTE, technique="TLA+-enumerated case space (TLC) + round trip through the real codec compared in the abstract domain",
+    design_ref="DESIGN.md §3.2, §4 C01, Appendix A")
+CHECKS["C02"] = dict(
+    level="exploration",
+    text="The expected bytes are computed by TLC from the TLA+ transcription of the protocol documents (WirePrim/WireMsg/WireShapes.tla) as "
+         "chunk sequences with unordered (map entries) and alternative (Global_tables_spec) groups; the real encoder's bytes must be one of "
+         "the admissible encodings and every admissible encoding must decode to the abstract frame. All 2^16 (version byte, opcode) headers "
+         "are compared with WireHeader.tla's accept/reject table. This is the independent-oracle check a round trip cannot give.",
+    note=_WIRE_NOTE + " Known finding: the v2 'text' type code cannot be decoded.",
+    technique="byte-exact vectors computed by TLC from a TLA+ transcription of the protocol documents",
+    design_ref="DESIGN.md §3.2, §4 C02")
+CHECKS["C03"] = dict(
+    level="exploration",
+    text="For every vector of WireShapes.tla: the declared body length (struct field and bytes on the wire) equals the body bytes emitted, with "
+         "and without compression; each message codec's EncodedLength equals what its encoder writes; every decoding path consumes exactly "
+         "header + declared length (a sentinel follows each frame). Stream-level sequences (FrameStream.tla) are planned on top of this.",
+    note=_WIRE_NOTE, technique="TLA+-enumerated case space + length/position accounting on the real codec",
+    design_ref="DESIGN.md §3.3, §4 C03")
+CHECKS["C05"] = dict(
+    level="exploration",
+    text="For every vector of WireShapes.tla each partial path of the raw codec (DecodeRawFrame+ConvertFromRawFrame, DecodeHeader followed by "
+         "DecodeBody / DecodeRawBody / DiscardBody on seekable and non-seekable sources, ConvertToRawFrame+EncodeRawFrame, "
+         "EncodeHeader+EncodeBody) must agree with the full codec: same abstract frame, admissible bytes, exact end position, and "
+         "re-encoding decoded bytes gives bytes that decode to an equal frame.",
+    note=_WIRE_NOTE, technique="TLA+-enumerated case space + path-equivalence checks on the real codec",
+    design_ref="DESIGN.md §3.3, §4 C05")
+
 NOT_YET = {}
 
 
